@@ -57,6 +57,46 @@ def fam_args(tier, rng):
                     arg["sid"] = c["id"]
                 main += [c, b.print(lit("$", "after"), a, idx("AR", t, [lit("I", 1)]), idx("AR", t, [lit("I", 0)]))]
                 out.append({"fam": "args:%s/%s/%s" % (t, shape, style), "prog": prog(main, subs)})
+    # by-reference array element whose subscript calls a (pure) function: SUB and FUNCTION callee
+    for t in T5:
+        for host in ("sub", "fun", "fun-print"):
+            b = B()
+            one = fcall("ONE", "I", [], 0)
+            arg = idx("AR", t, [one])
+            x = var("X", t)
+            pbody = [b.print(lit("$", "in"), x), b.let(x, v1(t))]
+            fbody = [b.let(var("Y", t), v1(t)), b.let(var("FB", t), v0(t))]
+            subs = [sub("P", [("X", t)], pbody), fun("FB", t, [("Y", t)], fbody), fun("ONE", "I", [], [])]
+            subs[2]["body"] = [b.let(var("ONE", "I"), lit("I", 1))]
+            main = [b.dim("AR", t, [{"lo": lit("I", 0), "hi": lit("I", 2), "nolo": False}]), b.let(idx("AR", t, [lit("I", 1)]), v0(t))]
+            if host == "sub":
+                c = b.call("P", [arg])
+                one["sid"] = c["id"]
+            else:
+                fc = fcall("FB", t, [arg], 0)
+                c = b.let(var("R", t), fc) if host == "fun" else b.print(fc)
+                fc["sid"] = c["id"]
+                one["sid"] = c["id"]
+            main += [c, b.print(lit("$", "after"), idx("AR", t, [lit("I", 1)]), idx("AR", t, [lit("I", 0)]))]
+            out.append({"fam": "args-idxfcall:%s/%s" % (t, host), "prog": prog(main, subs)})
+    # the same variable / element in two by-reference positions: both are copied in, and written back left to
+    # right, so the right parameter's final value is what the caller sees
+    for t in T5:
+        for what in ("var", "idx"):
+            for order in ((0, 1), (1, 0)):
+                b = B()
+                vals = [v0(t), v1(t)]
+                body = [b.print(var("X", t), var("Y", t)), b.let(var("X", t), vals[order[0]]), b.let(var("Y", t), vals[order[1]])]
+                if what == "var":
+                    a1, a2 = var("A", t), var("A", t)
+                    main = [b.let(var("A", t), v0(t))]
+                    show = [var("A", t)]
+                else:
+                    a1, a2 = idx("AR", t, [lit("I", 1)]), idx("AR", t, [lit("I", 1)])
+                    main = [b.dim("AR", t, [{"lo": lit("I", 0), "hi": lit("I", 2), "nolo": False}]), b.let(idx("AR", t, [lit("I", 1)]), v0(t))]
+                    show = [idx("AR", t, [lit("I", 1)]), idx("AR", t, [lit("I", 0)])]
+                main += [b.call("P", [a1, a2]), b.print(*show)]
+                out.append({"fam": "args2-alias:%s/%s/%d" % (t, what, order[0]), "prog": prog(main, [sub("P", [("X", t), ("Y", t)], body)])})
     # two by-reference parameters, written back left to right; mixed by-ref / by-val
     for t1 in T5:
         for t2 in T5:
@@ -158,9 +198,17 @@ def fam_function(tier, rng):
 def fam_static(tier, rng):
     out = []
     n = 5 if tier == "thorough" else 4
-    acts = "DVOF"
+    acts = "DVOFXT"
+    hists = []
     for ln in range(1, n + 1):
-        for hist in itertools.product(acts, repeat=ln):
+        hs = list(itertools.product(acts, repeat=ln))
+        if ln >= 4 and tier == "quick":
+            hs = rng.sample(hs, 350)
+        elif ln >= 5:
+            hs = rng.sample(hs, 3000)
+        hists += hs
+    if True:
+        for hist in hists:
             b = B()
             c = var("C", "I")
             sbody = [b.let(c, bin_("+", c, lit("I", 1))), b.print(lit("$", "s"), c)]
@@ -168,6 +216,12 @@ def fam_static(tier, rng):
             obody = [b.let(var("C", "I"), lit("I", 77)), b.print(lit("$", "o"))]
             fs = var("FS", "I")
             fbody = [b.let(var("K", "I"), bin_("+", var("K", "I"), lit("I", 1))), b.let(fs, var("K", "I"))]
+            t_ = var("TC", "I")
+            tbody = [b.let(t_, bin_("+", t_, lit("I", 100))), b.print(lit("$", "t"), t_)]
+            xfs = fcall("FS", "I", [], 0)
+            xs = b.print(lit("$", "xfs"), xfs)
+            xfs["sid"] = xs["id"]
+            xbody = [b.call("S", []), b.call("T", []), xs, b.print(lit("$", "x"))]
             main = []
             for a in hist:
                 if a == "D":
@@ -176,6 +230,10 @@ def fam_static(tier, rng):
                     main.append(b.call("W", []))
                 elif a == "O":
                     main.append(b.call("O", []))
+                elif a == "X":
+                    main.append(b.call("X", []))
+                elif a == "T":
+                    main.append(b.call("T", []))
                 else:
                     cfs = fcall("FS", "I", [], 0)
                     s = b.print(lit("$", "fs"), cfs)
@@ -183,7 +241,7 @@ def fam_static(tier, rng):
                     main.append(s)
             main.append(b.print(lit("$", "end"), c))
             subs = [sub("S", [], sbody, static=True), sub("W", [], wbody), sub("O", [], obody),
-                    fun("FS", "I", [], fbody, static=True)]
+                    fun("FS", "I", [], fbody, static=True), sub("T", [], tbody, static=True), sub("X", [], xbody)]
             out.append({"fam": "static:" + "".join(hist), "prog": prog(main, subs)})
     # STATIC sub with a parameter: rebound at each call, statics kept
     for t in ("I", "$"):
@@ -247,6 +305,41 @@ def fam_nested(tier, rng):
             main = [b.dim("G", "I", shared=True), b.let(g, lit("I", 1)), cs, b.print(lit("$", "end"), g)]
             subs = [fun("F", "I", [("X", "I")], fb), fun("H", "I", [("X", "I")], gb), sub("P", [("A", "I"), ("B", "I"), ("C", "I")], pb)]
             out.append({"fam": "nested:%s/%s" % ("".join(o[0] for o in order), style), "prog": prog(main, subs)})
+    # FUNCTION calls (each with its own loop) in the header of a FOR: the header's values survive the calls
+    for which in itertools.product((False, True), repeat=3):
+        if not any(which):
+            continue
+        for sign in (1, -1):
+            for inbody in (False, True):
+                b = B()
+                lo, hi, st = (1, 3, 1) if sign > 0 else (3, 1, -1)
+
+                def mk(name, val):
+                    k = var("K", "I")
+                    return fun(name, "I", [("X", "I")], [b.for_(k, lit("I", 1), lit("I", 6), None, [b.let(var("Q", "I"), k)], hasstep=False),
+                                                         b.print(lit("$", name)), b.let(var(name, "I"), num(val))])
+                subs = [mk("LOF", lo), mk("HIF", hi), mk("STF", st)]
+                calls = []
+                es = []
+                for use, name, val in zip(which, ("LOF", "HIF", "STF"), (lo, hi, st)):
+                    if use:
+                        c = fcall(name, "I", [lit("I", 0)], 0)
+                        calls.append(c)
+                        es.append(c)
+                    else:
+                        es.append(num(val))
+                i = var("I", "I")
+                body = [b.print(i)]
+                if inbody:
+                    c2 = fcall("HIF", "I", [lit("I", 0)], 0)
+                    s2 = b.let(var("W", "I"), c2)
+                    c2["sid"] = s2["id"]
+                    body.append(s2)
+                f = b.for_(i, es[0], es[1], es[2], body)
+                for c in calls:
+                    c["sid"] = f["id"]
+                out.append({"fam": "for-header-calls:%s/%d/%s" % ("".join("c" if w else "-" for w in which), sign, inbody),
+                            "prog": prog([f, b.print(lit("$", "end"), i)], subs)})
     # a SUB calling a SUB calling a FUNCTION, by-ref chain two levels deep
     for t in ("I", "L", "S", "D", "$"):
         b = B()
